@@ -7,6 +7,21 @@ int cmd_read(const case_t *c)
     const char *fmt = cstr(c, "fmt", "hb"), *file = cstr(c, "file", "");
     jo_begin(c);
     jo_str("fmt", fmt);
+    /* prefiles=a;b;...: other well-formed files read first, by the same reader in the same process (a program that reads several
+       matrices); what comes back for them is dropped, only the main file is compared */
+    const char *pre = cstr(c, "prefiles", "");
+    if (pre[0]) {
+        char *buf2 = strdup(pre), *save = NULL;
+        for (char *tok = strtok_r(buf2, ";", &save); tok; tok = strtok_r(NULL, ";", &save)) {
+            if (!freopen(tok, "r", stdin)) continue;
+            int_t m2, n2, nz2; elem_t *v2 = NULL; int_t *r2 = NULL, *c2 = NULL;
+            if (!strcmp(fmt, "hb")) { READHB(&m2, &n2, &nz2, &v2, &r2, &c2); }
+            else if (!strcmp(fmt, "rb")) { READRB(&m2, &n2, &nz2, &v2, &r2, &c2); }
+            else { READMT(&m2, &n2, &nz2, &v2, &r2, &c2); }
+            SUPERLU_FREE(v2); SUPERLU_FREE(r2); SUPERLU_FREE(c2);
+        }
+        free(buf2);
+    }
     if (!freopen(file, "r", stdin)) { jo_str("error", "cannot open file"); jo_end(); return 2; }
     int_t m = -1, n = -1, nnz = -1; elem_t *val = NULL; int_t *rowind = NULL, *colptr = NULL;
     if (!strcmp(fmt, "hb")) { READHB(&m, &n, &nnz, &val, &rowind, &colptr); }
